@@ -94,7 +94,7 @@ package notifications
 //@   modifies ps.cmds
 //@   ensures len(old(ps.cmds)) > 0 ==> result == old(ps.cmds[0]) && ps.cmds == old(ps.cmds[1:])
 //@   -- assumption about API users (not proved): a subscribe command carries a non-nil subscriber
-//@   ensures result.op == subscribe ==> result.sub != nil
+//@   trusts result.op == subscribe ==> result.sub != nil
 
 //@ -- the dispatch loop: one command at a time, in queue order, each through the registry operation of its kind;
 //@ -- on shutdown every remaining subscription is ended (one OnClose each) and the registry is empty
